@@ -7,6 +7,7 @@ comma-separated ints (`1,2,0`; a network node or Voronoi index is a single int);
   scenario grid <moore|vn|hex> <torus 0|1> <cap|-> <d1,d2,...>
   scenario net <directed 0|1> <cap|-> <n> [a-b ...]
   scenario vor <cap|-> <n> p:x,y ... t:a,b,c ...     (t: the exact Delaunay triangles, for the model)
+  scenario vor d <n> p:... t:... a:num/den ...         (default capacity_function; a: the exact Voronoi cell areas, one per cell)
   new cell|fixed|g2d | set a c|- | moveto a c | moverel a key | move a Dir k | remove a
   tryrandom 0|1 | randempty d... | randcell d...           -> result + full observation dump
   conns c | nbhd c r ic | nbprop c | mask c r ic           -> result only
@@ -296,7 +297,10 @@ class Header:
             self.directed, self.cap, self.n = w[2] == "1", parse_opt_int(w[3]), int(w[4])
             self.edges = [tuple(int(x) for x in e.split("-")) for e in w[5:]]
         elif self.kind == "vor":
-            self.cap, self.n = parse_opt_int(w[2]), int(w[3])
+            # `d`: the default `capacity_function` (capacity = int(area * 500) per cell, areas given exactly as a:num/den)
+            self.default_cap = w[2] == "d"
+            self.cap, self.n = (None if self.default_cap else parse_opt_int(w[2])), int(w[3])
+            self.areas = [Fraction(t[2:]) for t in w[4:] if t.startswith("a:")]
             self.points = [parse_tuple(t[2:]) for t in w[4:] if t.startswith("p:")]
             # optional `s:k`: the centroids are the integer points divided by k (connections are scale-invariant,
             # the code's fixed-size Bowyer-Watson frame is not)
@@ -304,6 +308,12 @@ class Header:
             self.tris = [parse_tuple(t[2:]) for t in w[4:] if t.startswith("t:")]
         else:
             raise ValueError(w)
+
+    def capof(self, name):
+        """the capacity the cell named `name` must have (None: unlimited)"""
+        if self.kind == "vor" and self.default_cap:
+            return int(self.areas[int(name)] * 500)
+        return self.cap
 
     def key(self, s):
         """protocol name -> key of `space._cells` / `connections`"""
@@ -337,8 +347,11 @@ class Impl:
                 self.space = ds.Network(G, capacity=h.cap, random=self.rng)
             else:
                 cap = h.cap
-                self.space = ds.VoronoiGrid([[x / h.scale for x in p] for p in h.points], capacity=cap, random=self.rng,
-                                            capacity_function=lambda area: cap)
+                pts = [[x / h.scale for x in p] for p in h.points]
+                if h.default_cap:
+                    self.space = ds.VoronoiGrid(pts, random=self.rng)
+                else:
+                    self.space = ds.VoronoiGrid(pts, capacity=cap, random=self.rng, capacity_function=lambda area: cap)
         except ValueError:
             self.space = None
         if self.space is not None:
@@ -681,9 +694,13 @@ def spec_coll(expr, h, conn, names, occ, cap):
         if not ic:
             reach.discard(key)
         cells = [fmt_name(k) for k in sorted(k if isinstance(k, tuple) else (k,) for k in reach)]
+    capof = cap if isinstance(cap, dict) else {n: cap for n in names}
+
+    def full(n):
+        return capof[n] is not None and len(occ.get(n, [])) == capof[n]
+
     preds = {"none": lambda n: True, "empty": lambda n: not occ.get(n), "occupied": lambda n: bool(occ.get(n)),
-             "full": lambda n: cap is not None and len(occ.get(n, [])) == cap,
-             "notfull": lambda n: not (cap is not None and len(occ.get(n, [])) == cap)}
+             "full": full, "notfull": lambda n: not full(n)}
     for p in parts[1:]:
         f, m = p.split(":")
         match = [n for n in cells if preds[f](n)]
@@ -809,6 +826,50 @@ def general_position(points, extra=()):
     return True
 
 
+def circumcenter(a, b, c):
+    (ax, ay), (bx, by), (cx, cy) = a, b, c
+    d = 2 * (ax * (by - cy) + bx * (cy - ay) + cx * (ay - by))
+    a2, b2, c2 = ax * ax + ay * ay, bx * bx + by * by, cx * cx + cy * cy
+    return Fraction(a2 * (by - cy) + b2 * (cy - ay) + c2 * (ay - by), d), Fraction(a2 * (cx - bx) + b2 * (ax - cx) + c2 * (bx - ax), d)
+
+
+def voronoi_areas(points, scale=1):
+    """exact areas (Fractions, in true units) of the Voronoi cells as `_build_cell_polygons` defines them: around each centroid the
+    polygon of the circumcentres of the Delaunay triangles of centroids + the four corners of the code's 9999-frame
+    (`points` are integers in units of 1/scale).  None if a walk around a centroid does not close (degenerate input)."""
+    frame = [(x * scale, y * scale) for x, y in FRAME]
+    allp = list(points) + frame
+    n = len(points)
+    tris = []
+    for i, j, k in itertools.combinations(range(len(allp)), 3):
+        if i >= n:
+            continue
+        a, b, c = allp[i], allp[j], allp[k]
+        if orient(a, b, c) != 0 and all(incircle(a, b, c, p) <= 0 for t, p in enumerate(allp) if t not in (i, j, k)):
+            tris.append((i, j, k))
+    areas = []
+    for v in range(n):
+        inc = [t for t in tris if v in t]
+        if len(inc) < 3:
+            return None
+        cur = inc[0]
+        start, nxt = (x for x in cur if x != v)
+        order = [cur]
+        while True:
+            cand = [t for t in inc if t not in order and nxt in t]
+            if not cand:
+                break
+            cur = cand[0]
+            order.append(cur)
+            nxt = next(x for x in cur if x != v and x != nxt)
+        if len(order) != len(inc) or nxt != start:
+            return None
+        poly = [circumcenter(*(allp[x] for x in t)) for t in order]
+        twice = sum(poly[i][0] * poly[(i + 1) % len(poly)][1] - poly[(i + 1) % len(poly)][0] * poly[i][1] for i in range(len(poly)))
+        areas.append(abs(twice) / 2 / (scale * scale))
+    return areas
+
+
 def voronoi_ok(points, scale=1):
     """general position, and the code's finite 9999-frame does not change the triangulation
     (`points` are integers in units of 1/scale, so the frame is scaled up instead)"""
@@ -854,7 +915,36 @@ def gen_net_header(R, max_nodes=8, caps=(None, None, 1, 1, 2, 3), directed_p=0.1
 FALLBACK_POINTS = [(-3, -6), (6, -9), (3, 4), (-9, 5), (-1, -2)]  # in general position, also with the frame corners
 
 
-def gen_vor_header(R, max_points=7, caps=(None, None, 1, 1, 2, 3), span=9):
+def gen_vor_default_header(R, max_points=7):
+    """a VoronoiGrid with the default capacity_function: a small cluster in units of 1/16 .. 1/64 so that inner cells get
+    capacities of a few agents (int(area * 500)); None if no suitable point set was found"""
+    for _ in range(60):
+        scale = R.choice([16, 32, 32, 64])
+        n = R.randint(4, max_points)
+        span = R.choice([3, 4, 5, 6])
+        pts = [(R.randint(-span, span), R.randint(-span, span)) for _ in range(n)]
+        tris = voronoi_ok(pts, scale)
+        if tris is None:
+            continue
+        areas = voronoi_areas(pts, scale)
+        if areas is None:
+            continue
+        caps = [int(a * 500) for a in areas]
+        # the float area must not sit on a rounding edge of int(area * 500) where it could matter
+        if any(c < 10 ** 6 and not (Fraction(1, 10 ** 6) < a * 500 - c < 1 - Fraction(1, 10 ** 6)) for a, c in zip(areas, caps)):
+            continue
+        if not any(1 <= c <= 4 for c in caps) and R.random() < 0.8:
+            continue
+        return (f"scenario vor d {n} " + " ".join(f"p:{x},{y}" for x, y in pts) + " " + " ".join(f"t:{a},{b},{c}" for a, b, c in tris)
+                + f" s:{scale} " + " ".join(f"a:{a.numerator}/{a.denominator}" for a in areas))
+    return None
+
+
+def gen_vor_header(R, max_points=7, caps=(None, None, 1, 1, 2, 3), span=9, default_cap=False):
+    if default_cap:
+        hd = gen_vor_default_header(R, max_points)
+        if hd is not None:
+            return hd
     scale = 1
     for _ in range(50):
         n = R.randint(3, max_points)
@@ -880,13 +970,13 @@ def gen_vor_header(R, max_points=7, caps=(None, None, 1, 1, 2, 3), span=9):
             + " ".join(f"t:{a},{b},{c}" for a, b, c in tris) + (f" s:{scale}" if scale != 1 else ""))
 
 
-def gen_header(R, **kw):
+def gen_header(R, default_caps=False, **kw):
     k = R.random()
     if k < 0.6:
         return gen_grid_header(R, **kw)
     if k < 0.85:
         return gen_net_header(R)
-    return gen_vor_header(R)
+    return gen_vor_header(R, default_cap=default_caps and R.random() < 0.5)
 
 
 def cell_names(h):
@@ -987,12 +1077,13 @@ def gen_coll(R, h, names, impl=None, agents=True):
     return f"coll {expr} {verb}"
 
 
-def gen_c06(R, rejecting=False, n_ops=None, header=None, edits=False):
-    hd = header or (gen_header(R) if not rejecting else
+def gen_c06(R, rejecting=False, n_ops=None, header=None, edits=False, default_caps=False):
+    hd = header or (gen_header(R, default_caps=default_caps) if not rejecting else
                     R.choice([gen_grid_header(R, max_size=3, caps=(1, 1, 1, 2), max_cells=12),
                               gen_grid_header(R, max_size=3, caps=(1, 1, 1, 2), max_cells=12),
                               gen_net_header(R, max_nodes=5, caps=(1, 1, 2)),
-                              gen_vor_header(R, max_points=5, caps=(1, 1, 2))]))
+                              gen_vor_header(R, max_points=5 + default_caps, caps=(1, 1, 2),
+                                             default_cap=default_caps and R.random() < 0.5)]))
     lines = [hd]
     impl = Impl(hd.split())
     h = impl.h
@@ -1116,7 +1207,7 @@ def oracle_c06(sc, obs, reject_clause=True):
     if obs[0] != "ok":
         return bad
     names = cell_names(h)
-    cap = h.cap
+    capof = {n: h.capof(n) for n in names}
     prev = None
     conn = spec_connections(h) if any(l.split()[0] in EDITS + ("nbagents", "coll") for l in sc.lines[1:]) else None
     for line, o in zip(sc.lines[1:], obs[1:]):
@@ -1124,7 +1215,7 @@ def oracle_c06(sc, obs, reject_clause=True):
         if w[0] in QUERIES:
             if w[0] == "coll":
                 pocc = {t.partition(":")[0]: t.partition(":")[2].split(".") for t in prev["occ"]} if prev else {}
-                bad += oracle_coll(line, o, h, conn, names, pocc, cap)
+                bad += oracle_coll(line, o, h, conn, names, pocc, capof)
             if w[0] in EDITS:
                 # connections edited after construction: the neighbourhoods below are those of the edited structure
                 want = expect_edit(conn, h, w)
@@ -1164,21 +1255,19 @@ def oracle_c06(sc, obs, reject_clause=True):
                     bad.append(f"mirror: after `{line}` agent {a} reports no cell but is listed in {where}")
             elif where != [c]:
                 bad.append(f"mirror: after `{line}` agent {a} reports cell {c} but is listed in {where}")
-        # capacity
-        if cap:
-            for n in names:
-                if len(occ[n]) > cap:
-                    bad.append(f"capacity: after `{line}` cell {n} holds {len(occ[n])} > {cap}")
+        # capacity (per cell: a VoronoiGrid with the default capacity_function gives every cell its own)
+        for n in names:
+            if capof[n] and len(occ[n]) > capof[n]:
+                bad.append(f"capacity: after `{line}` cell {n} holds {len(occ[n])} > {capof[n]}")
         # emptiness views
         truth = [n for n in names if not occ[n]]
         if d["empty"] != truth:
             bad.append(f"view-is_empty: after `{line}` is_empty cells {d['empty']} != {truth}")
-        if cap is not None:
-            tf = [n for n in names if len(occ[n]) == cap]
-            if d["full"] != tf:
-                bad.append(f"view-is_full: after `{line}` is_full cells {d['full']} != {tf}")
-        elif d["full"]:
-            bad.append(f"view-is_full: after `{line}` cells {d['full']} full without a capacity")
+        # is_full: exactly the cells holding as many agents as their capacity (capacity 0 — a tiny Voronoi cell under the
+        # default capacity_function — is outside the property's quantifier and skipped)
+        tf = [n for n in names if capof[n] and len(occ[n]) == capof[n]]
+        if [n for n in d["full"] if capof[n] != 0] != tf:
+            bad.append(f"view-is_full: after `{line}` is_full cells {d['full']} != {tf}")
         if h.kind == "grid":
             if d["layer"] != truth:
                 bad.append(f"view-layer: after `{line}` grid.empty.data true at {d['layer']} != empty cells {truth}")
@@ -1214,7 +1303,11 @@ def tags_c06(sc, obs):
         yield "torus:" + w0[3]
         yield "cap:" + w0[4]
     else:
-        yield "cap:" + (w0[3] if w0[1] == "net" else w0[2])
+        yield "cap:" + (w0[3] if w0[1] == "net" else w0[2] if w0[2] != "d" else "default-capacity-function")
+        if w0[2] == "d":
+            h = Header(w0)
+            for c in sorted({min(h.capof(n), 9) for n in cell_names(h)}):
+                yield f"voronoi-default-capacity:{c if c < 9 else '9+'}"
     prev = None
     for l, o in zip(sc.lines[1:], obs[1:]):
         w = l.split()
